@@ -22,6 +22,7 @@ import zipfile
 
 from harness import common, gen, codec, engine, streams, sexp_types, wire
 from pyasn1 import error
+from pyasn1.type import tag
 from pyasn1.codec import streaming
 from pyasn1.type import univ
 
@@ -476,6 +477,11 @@ def substrates(data, rng):
         ('BytesIO', lambda: (io.BytesIO(data), nothing)),
         ('OctetString', lambda: (univ.OctetString(data), nothing)),
         ('Any', lambda: (univ.Any(data), nothing)),
+        # values of named types (how every schema module declares X ::= OCTET STRING / ANY) and of tagged / constrained ones
+        ('OctetString-subclass', lambda: (_NamedOctets(data), nothing)),
+        ('Any-subclass', lambda: (_NamedAny(data), nothing)),
+        ('OctetString-tagged', lambda: (univ.OctetString(data).subtype(implicitTag=tag.Tag(tag.tagClassContext, tag.tagFormatSimple, 3)), nothing)),
+        ('Any-explicit-subclass-of-subclass', lambda: (_NamedAny2(data).subtype(explicitTag=tag.Tag(tag.tagClassContext, tag.tagFormatSimple, 1)), nothing)),
         ('file', mk_file),
         ('file-unbuffered', mk_unbuffered),
         ('gzip', mk_gzip),
@@ -491,6 +497,18 @@ def substrates(data, rng):
         ('pipe-buffered-after-header-peek', mk_pipe(b'\x00\x01\x02\x03\x04\x05\x06', 'peek')),
         ('socket-makefile', mk_socket),
     ]
+
+
+class _NamedOctets(univ.OctetString):
+    pass
+
+
+class _NamedAny(univ.Any):
+    pass
+
+
+class _NamedAny2(_NamedAny):
+    pass
 
 
 NONSEEKABLE = ('nonseekable', 'nonseekable-short-reads', 'nonseekable-trickle', 'pipe-buffered', 'pipe-buffered-after-header-read',
@@ -819,7 +837,7 @@ def check_helpers(rep, rng, n):
         ref = run_helpers(data, ops)
         rep.case('helpers %d %s' % (size, ops), nontrivial=True)
         for name, mk in substrates(data, rng):
-            if name in ('OctetString', 'Any'):
+            if name.startswith(('OctetString', 'Any')):
                 continue
             sub, close = mk()
             try:
